@@ -1341,3 +1341,461 @@ func (o *objClasses) traceResult(c *ssa.Call, i int) ssa.Value {
 	o.ret[fn][i] = r
 	return r
 }
+
+// ------------------------------------------------------------ DeepFacts --
+//
+// DeepFacts evaluates ClassFacts across function boundaries, so that a rule
+// does not depend on where a maintainer draws them:
+//
+//   - downwards (callee summaries): a call H(.., a_i, ..) establishes the
+//     universal fact for the class  path(a_i).rest  when, inside H, the fact
+//     for  param_i.rest  holds before every return that can report success
+//     (returns of a certainly non-nil error are failure exits; the fact is then
+//     generated on the caller's err == nil edge of the call, otherwise right
+//     after the call). `ib.validateNames()` is a sanitiser of ib.Files[*].Path[*].
+//   - upwards (caller context): the fact for a class rooted at a parameter of
+//     a helper holds at an instruction of the helper when no instruction between
+//     the helper's entry and that instruction kills it and the corresponding
+//     fact, rooted at the argument, holds before every static call site
+//     (a helper that is spawned / deferred / taken as a value has unknown
+//     context). `constructFiles(name, ib.Files, pad)` reads files[j].Path.
+//
+// Kills are the ones of ClassFacts (any store to a field on the access path
+// through any base, calls that may perform one) plus whole-element stores into
+// a container on the path.
+type DeepFacts struct {
+	P       *Prog
+	Subject func(a Atom) ssa.Value
+	// Scope limits the functions looked into (nil: every module function).
+	Scope func(*ssa.Function) bool
+	cfs   map[*ssa.Function]*ClassFacts
+	down  map[string]*Flow
+	nokil map[string]*Flow
+	sums  map[string]int
+	busy  map[string]bool
+}
+
+// NewDeepFacts creates the interprocedural evaluator for predicate `subject`.
+func (p *Prog) NewDeepFacts(subject func(a Atom) ssa.Value, scope func(*ssa.Function) bool) *DeepFacts {
+	return &DeepFacts{P: p, Subject: subject, Scope: scope, cfs: map[*ssa.Function]*ClassFacts{},
+		down: map[string]*Flow{}, nokil: map[string]*Flow{}, sums: map[string]int{}, busy: map[string]bool{}}
+}
+
+// Facts returns the intraprocedural facts of fn.
+func (d *DeepFacts) Facts(fn *ssa.Function) *ClassFacts {
+	cf, ok := d.cfs[fn]
+	if !ok {
+		cf = d.P.NewClassFacts(fn, d.Subject)
+		d.cfs[fn] = cf
+		if os.Getenv("RAINLINT_CF") != "" {
+			fmt.Fprintf(os.Stderr, "classfacts %s:\n%s", fn.Name(), cf.Debug())
+		}
+	}
+	return cf
+}
+
+func (d *DeepFacts) inScope(fn *ssa.Function) bool {
+	return fn != nil && fn.Blocks != nil && InModule(FnPkgPath(fn)) && (d.Scope == nil || d.Scope(fn))
+}
+
+// Holds reports whether pi(v) is a must-fact when v is used at `at`.
+func (d *DeepFacts) Holds(v ssa.Value, at ssa.Instruction) bool {
+	if at == nil || !d.inScope(at.Parent()) {
+		return false
+	}
+	if d.Facts(at.Parent()).Holds(v, at) {
+		return true
+	}
+	return d.class(v, false)
+}
+
+// HoldsForElems reports whether pi holds for every element of container v.
+func (d *DeepFacts) HoldsForElems(v ssa.Value, at ssa.Instruction) bool {
+	if at == nil || !d.inScope(at.Parent()) {
+		return false
+	}
+	if d.Facts(at.Parent()).HoldsForElems(v, at) {
+		return true
+	}
+	return d.class(v, true)
+}
+
+func (d *DeepFacts) class(v ssa.Value, elems bool) bool {
+	vp := ResolveAPath(v)
+	if len(vp.Loads) == 0 {
+		return false
+	}
+	want := vp
+	if elems {
+		want = &APath{Root: vp.Root, Steps: append(append([]PStep(nil), vp.Steps...), PStep{Index: v})}
+	}
+	for _, ld := range vp.Loads {
+		if !d.UnivAt(want, ld, 2) {
+			if os.Getenv("RAINLINT_CF") != "" {
+				fmt.Fprintf(os.Stderr, "deep: class %s of %s fails before %v in %s\n", want.Class(), want.Root.Name(), ld, ld.Parent().Name())
+			}
+			return false
+		}
+	}
+	return true
+}
+
+func pathKey(fn *ssa.Function, p *APath) string {
+	var sb strings.Builder
+	fmt.Fprintf(&sb, "%p|%p", fn, p.Root)
+	for _, s := range p.Steps {
+		if s.Field != nil {
+			fmt.Fprintf(&sb, ".%p", s.Field)
+		} else {
+			sb.WriteString("[*]")
+		}
+	}
+	return sb.String()
+}
+
+// univBefore: some complete validation inside the function establishes the
+// universal fact of the class before `at`.
+func (cf *ClassFacts) univBefore(path *APath, at ssa.Instruction) bool {
+	if at.Parent() != cf.Fn {
+		return false
+	}
+	for _, s := range cf.sites {
+		if s.univ != nil && s.path.SameShape(path) && s.univ.Before(at) {
+			return true
+		}
+	}
+	return false
+}
+
+// deepKill is the kill predicate of a class fact in any function.
+func (d *DeepFacts) deepKill(path *APath) func(ins ssa.Instruction) bool {
+	fields := path.Fields()
+	return func(ins ssa.Instruction) bool {
+		for _, f := range fields {
+			if d.P.KillsField(ins, f) {
+				return true
+			}
+		}
+		if st, ok := ins.(*ssa.Store); ok {
+			if st.Addr == path.Root {
+				return true
+			}
+			// whole-element / whole-struct store into a container on the path
+			if _, isIdx := st.Addr.(*ssa.IndexAddr); isIdx {
+				ap := ResolveAPath(st.Addr)
+				if ap.Root == path.Root && shapePrefix(ap.Steps, path.Steps, true) {
+					return true
+				}
+			}
+		}
+		return false
+	}
+}
+
+// shapePrefix: pre is a shape-prefix of steps (allowIdx: index steps may occur
+// in the prefix).
+func shapePrefix(pre, steps []PStep, allowIdx bool) bool {
+	if len(pre) > len(steps) {
+		return false
+	}
+	for i := range pre {
+		if pre[i].Field != steps[i].Field || (pre[i].Index == nil) != (steps[i].Index == nil) {
+			return false
+		}
+		if pre[i].Index != nil && !allowIdx {
+			return false
+		}
+	}
+	return true
+}
+
+// errNilness: +1 certainly non-nil error value, -1 certainly nil, 0 unknown.
+func errNilness(v ssa.Value) int {
+	switch x := v.(type) {
+	case *ssa.Const:
+		if x.Value == nil {
+			return -1
+		}
+	case *ssa.MakeInterface:
+		return +1
+	case *ssa.Call:
+		if fn := x.Call.StaticCallee(); fn != nil && fn.Pkg != nil {
+			switch fn.Pkg.Pkg.Path() + "." + fn.Name() {
+			case "errors.New", "fmt.Errorf":
+				return +1
+			}
+		}
+	}
+	return 0
+}
+
+const (
+	sumNone   = iota + 1
+	sumAlways // the fact holds after the call
+	sumOnNil  // the fact holds when the trailing error result is nil
+)
+
+// summary decides what a call of h establishes for the class `path` rooted at
+// one of h's parameters.
+func (d *DeepFacts) summary(h *ssa.Function, path *APath, depth int) int {
+	k := pathKey(h, path)
+	if r, ok := d.sums[k]; ok {
+		return r
+	}
+	if d.busy[k] || depth <= 0 {
+		return sumNone
+	}
+	d.busy[k] = true
+	defer delete(d.busy, k)
+	res := h.Signature.Results()
+	errIdx := -1
+	if n := res.Len(); n > 0 && types.Identical(res.At(n-1).Type(), errorType) {
+		errIdx = n - 1
+	}
+	out, rets := sumAlways, 0
+	for _, b := range h.Blocks {
+		if len(b.Instrs) == 0 || b == h.Recover {
+			continue
+		}
+		r, ok := b.Instrs[len(b.Instrs)-1].(*ssa.Return)
+		if !ok {
+			continue
+		}
+		rets++
+		if errIdx >= 0 && errIdx < len(r.Results) && errNilness(r.Results[errIdx]) == +1 {
+			out = sumOnNil // failure exit
+			continue
+		}
+		if !d.univAt(path, r, 0, depth-1) {
+			out = sumNone
+			break
+		}
+	}
+	if rets == 0 {
+		out = sumNone
+	}
+	d.sums[k] = out
+	return out
+}
+
+type deepGen struct {
+	call   *ssa.Call
+	mode   int
+	errVal ssa.Value
+}
+
+// heldIn returns the value most recently stored into the cell that `load`
+// reads when that store is in the same block (`err = f(); if err != nil`).
+func heldIn(load ssa.Value) ssa.Value {
+	u, ok := load.(*ssa.UnOp)
+	if !ok || u.Op != token.MUL {
+		return nil
+	}
+	if _, ok := u.X.(*ssa.Alloc); !ok {
+		return nil
+	}
+	var held ssa.Value
+	for _, ins := range u.Block().Instrs {
+		if ins == ssa.Instruction(u) {
+			return held
+		}
+		if st, ok := ins.(*ssa.Store); ok && st.Addr == u.X {
+			held = st.Val
+		}
+	}
+	return nil
+}
+
+// downFlow builds the flow of the class fact in fn generated by calls whose
+// callee establishes it (nil: no such call).
+func (d *DeepFacts) downFlow(fn *ssa.Function, path *APath, depth int) *Flow {
+	k := pathKey(fn, path)
+	if fl, ok := d.down[k]; ok {
+		return fl
+	}
+	if depth <= 0 {
+		return nil
+	}
+	var gens []deepGen
+	Instrs(fn, func(ins ssa.Instruction) {
+		call, ok := ins.(*ssa.Call)
+		if !ok {
+			return
+		}
+		h := call.Call.StaticCallee()
+		if h == nil || h == fn || !d.inScope(h) {
+			return
+		}
+		for i, a := range call.Call.Args {
+			if i >= len(h.Params) {
+				break
+			}
+			ap := ResolveAPath(a)
+			if ap.Root != path.Root || !shapePrefix(ap.Steps, path.Steps, false) {
+				continue
+			}
+			cp := &APath{Root: h.Params[i], Steps: path.Steps[len(ap.Steps):]}
+			mode := d.summary(h, cp, depth)
+			if mode == sumNone {
+				continue
+			}
+			g := deepGen{call: call, mode: mode}
+			if mode == sumOnNil {
+				n := h.Signature.Results().Len()
+				if n == 1 {
+					g.errVal = call
+				} else if call.Referrers() != nil {
+					for _, r := range *call.Referrers() {
+						if ex, ok := r.(*ssa.Extract); ok && ex.Index == n-1 {
+							g.errVal = ex
+						}
+					}
+				}
+				if g.errVal == nil {
+					continue
+				}
+			}
+			gens = append(gens, g)
+		}
+	})
+	var fl *Flow
+	if len(gens) > 0 {
+		kill := d.deepKill(path)
+		fl = &Flow{P: d.P, Fn: fn,
+			Edge: func(a Atom) bool {
+				return a.IsNilCmp(true, func(x *Expr) bool {
+					if x == nil || x.V == nil {
+						return false
+					}
+					v := x.V
+					if x.Kind == "deref" {
+						if h := heldIn(v); h != nil {
+							v = h
+						}
+					}
+					for _, g := range gens {
+						if g.mode == sumOnNil && g.errVal == v {
+							return true
+						}
+					}
+					return false
+				})
+			},
+			Instr: func(ins ssa.Instruction, in bool) bool {
+				for _, g := range gens {
+					if g.mode == sumAlways && ssa.Instruction(g.call) == ins {
+						return true
+					}
+				}
+				if in && kill(ins) {
+					return false
+				}
+				return in
+			}}
+		fl.Solve()
+	}
+	d.down[k] = fl
+	return fl
+}
+
+// UnivAt reports whether pi holds for every value of the class `path` before
+// instruction `at`, looking `up` levels into the callers.
+func (d *DeepFacts) UnivAt(path *APath, at ssa.Instruction, up int) bool {
+	return d.univAt(path, at, up, 2)
+}
+
+func (d *DeepFacts) univAt(path *APath, at ssa.Instruction, up, depth int) bool {
+	fn := at.Parent()
+	if !d.inScope(fn) {
+		return false
+	}
+	if d.Facts(fn).univBefore(path, at) {
+		return true
+	}
+	if fl := d.downFlow(fn, path, depth); fl != nil && fl.Before(at) {
+		return true
+	}
+	// caller context
+	prm, ok := path.Root.(*ssa.Parameter)
+	if !ok || up <= 0 || prm.Parent() != fn {
+		return false
+	}
+	idx := -1
+	for i, q := range fn.Params {
+		if q == prm {
+			idx = i
+		}
+	}
+	if idx < 0 {
+		return false
+	}
+	k := pathKey(fn, path)
+	nk, ok := d.nokil[k]
+	if !ok {
+		kill := d.deepKill(path)
+		nk = (&Flow{P: d.P, Fn: fn, Entry: true, Instr: func(ins ssa.Instruction, in bool) bool {
+			if in && kill(ins) {
+				return false
+			}
+			return in
+		}}).Solve()
+		d.nokil[k] = nk
+	}
+	if !nk.Before(at) {
+		return false
+	}
+	if d.busy["up|"+k] {
+		return false
+	}
+	d.busy["up|"+k] = true
+	defer delete(d.busy, "up|"+k)
+	sites := d.P.StaticCallSites(fn)
+	if len(sites) == 0 {
+		return false
+	}
+	for _, site := range sites {
+		call, ok := site.(*ssa.Call)
+		if !ok || call == nil || idx >= len(call.Call.Args) {
+			return false
+		}
+		ap := ResolveAPath(call.Call.Args[idx])
+		for _, s := range ap.Steps {
+			if s.Index != nil {
+				return false
+			}
+		}
+		cp := &APath{Root: ap.Root, Steps: append(append([]PStep(nil), ap.Steps...), path.Steps...)}
+		if !d.univAt(cp, call, up-1, depth) {
+			if os.Getenv("RAINLINT_CF") != "" {
+				fmt.Fprintf(os.Stderr, "deep: caller context of %s fails at %s (class %s)\n", fn.Name(), d.P.Pos(call.Pos()), cp.Class())
+			}
+			return false
+		}
+	}
+	return true
+}
+
+// OnlyCalledFrom reports whether fn is root, or a function whose every use is
+// a plain static call located in a function that (recursively, `depth` levels)
+// is only called from root: the code of fn runs only as part of root.
+func (p *Prog) OnlyCalledFrom(fn, root *ssa.Function, depth int) bool {
+	for fn != nil && fn.Parent() != nil { // closures belong to their declaring function
+		fn = fn.Parent()
+	}
+	if fn == root {
+		return true
+	}
+	if fn == nil || depth <= 0 {
+		return false
+	}
+	sites := p.StaticCallSites(fn)
+	if len(sites) == 0 {
+		return false
+	}
+	for _, s := range sites {
+		if s == nil || !p.OnlyCalledFrom(s.Parent(), root, depth-1) {
+			return false
+		}
+	}
+	return true
+}
